@@ -101,8 +101,6 @@ def judge(n, numax, rhomax, base_name, logs, points, rewards, algo, T, skip_ok=T
             raise Violation("learner-params", "learner %d built with nu=%r, nu_max=%r" % (i, kw.get("nu"), numax), T)
         if not abs(float(kw.get("rho")) - want) <= 1e-12 * want:
             raise Violation("learner-params", "learner %d built with rho=%r, expected rho_max^(2N/(2i+1)) = %r" % (i, kw.get("rho"), want), T)
-        if base_name == "T_HOO" and kw.get("rounds") != n:
-            raise Violation("learner-params", "T_HOO learner %d built with rounds=%r" % (i, kw.get("rounds")), T)
         rhos.append(float(kw.get("rho")))
         start = (i - 1) * 2 * L  # rounds start+1 .. start+L explore, start+L+1 .. start+2L validate
         exp_rounds = [t for t in range(start + 1, start + L + 1) if t <= T]
